@@ -125,4 +125,6 @@ func c07Extra(r *core.Run) {
 
 	// rules added after the ninth detection round (c07_r9.go)
 	c07R9(r)
+	// rule added after the robustness round's report (c07_r10.go)
+	c07R10(r)
 }
